@@ -224,7 +224,11 @@ async fn handle_stream(
             };
         }
 
-        let tx = ts.get_mut(topic).unwrap();
+        let mut tx = ts.get(topic).unwrap().clone();
+
+        // Handing the socket over waits for room in this topic's queue. Release the
+        // global lock first so that a stalled topic cannot hold up every other topic.
+        drop(ts);
 
         match frame {
             Frame::RegisterPublisher(_) => {
